@@ -21,3 +21,41 @@ Theorem C11_automaton_accepts : forall (Q : Type) (E : EqDec Q) (A : enfa Q) (w 
   accepts A w = true <-> Lang A w.
 Proof. exact (@accepts_spec). Qed.
 Print Assumptions C11_automaton_accepts.
+
+(* ---- the constructions themselves, for all operands and all words ---- *)
+From PFL Require Import Model.EnfaOps Model.Cfg Model.CfgInter Model.Pda Proofs.CfgInter Proofs.PdaInter Proofs.InterDet.
+
+(* CFG.intersection: Bar-Hillel triples over the normal form, for a deterministic D *)
+Theorem C11_cfg_intersection_dfa : forall (Vr QD : Type) (EV : EqDec Vr) (EQ : EqDec QD) (fuel : nat) (G : cfg Vr) (D : enfa QD) (R : cfg (bvar QD (cvar Vr))),
+  is_dfa D -> wf D -> cfg_inter fuel G D = Some R -> forall w, LangG R w <-> LangG G w /\ Lang D w.
+Proof. exact (@cfg_inter_lang). Qed.
+Print Assumptions C11_cfg_intersection_dfa.
+
+(* ... and for any automaton, determinised first (what pyformlang does for Regex, NFA, epsilon-NFA and DFA operands) *)
+Theorem C11_cfg_intersection : forall (Vr Q : Type) (EV : EqDec Vr) (EQ : EqDec Q) (CQ : Canon Q) (b : bool) (A : enfa Q) (n fuel : nat) (G : cfg Vr)
+    (D : enfa (list Q)) (R : cfg (bvar (list Q) (cvar Vr))),
+  (b = false -> eps_free A) -> wf A -> determinize b A n = Some D -> cfg_inter fuel G D = Some R ->
+  forall w, LangG R w <-> LangG G w /\ Lang A w.
+Proof. exact (@cfg_inter_det). Qed.
+Print Assumptions C11_cfg_intersection.
+
+(* PDA.intersection: product over the reachable pairs; the automaton's epsilon moves, if any, are self-loops *)
+Theorem C11_pda_intersection_product : forall (Q G QD : Type) (E1 : EqDec Q) (E3 : EqDec QD) (P : pda Q G) (D : enfa QD),
+  (forall p q, In (p, None, q) (e_delta D) -> p = q) ->
+  forall (n : nat) (R : pda (Q * QD) G), pda_inter P D n = Some R ->
+  forall w, one_start D -> (acc_final R w <-> acc_final P w /\ Lang D w).
+Proof. exact (@pda_inter_spec). Qed.
+Print Assumptions C11_pda_intersection_product.
+
+Theorem C11_pda_intersection_deterministic : forall (Q0 G0 Q : Type) (E1 : EqDec Q0) (E2 : EqDec G0) (E3 : EqDec Q) (A : enfa Q) (m : nat) (P : pda Q0 G0)
+    (R : pda (Q0 * Q) G0),
+  is_deterministic A = true -> wf A -> pda_inter P A m = Some R -> forall w, acc_final R w <-> acc_final P w /\ Lang A w.
+Proof. exact (@pda_inter_deterministic). Qed.
+Print Assumptions C11_pda_intersection_deterministic.
+
+Theorem C11_pda_intersection : forall (Q0 G0 Q : Type) (E1 : EqDec Q0) (E2 : EqDec G0) (E3 : EqDec Q) (CQ : Canon Q) (b : bool) (A : enfa Q) (n m : nat)
+    (P : pda Q0 G0) (D : enfa (list Q)) (R : pda (Q0 * list Q) G0),
+  (b = false -> eps_free A) -> wf A -> determinize b A n = Some D -> pda_inter P D m = Some R ->
+  forall w, acc_final R w <-> acc_final P w /\ Lang A w.
+Proof. exact (@pda_inter_det). Qed.
+Print Assumptions C11_pda_intersection.
